@@ -40,8 +40,6 @@ pub fn zip_zip<'a, A, B, C>(a: &'a Vec<A>, b: &'a Vec<B>, c: &'a Vec<C>) -> (r: 
     ensures r.len() == (if a.len() <= b.len() && a.len() <= c.len() { a.len() } else if b.len() <= c.len() { b.len() } else { c.len() }),
         forall|k: int| 0 <= k < r.len() ==> *(#[trigger] r[k]).0.0 == a[k] && *r[k].0.1 == b[k] && *r[k].1 == c[k]
 { a.iter().zip(b.iter()).zip(c.iter()).collect() }
-// assert_eq!(a, b) in executable code: panics when the values differ, so the call carries the obligation that they are equal
-pub fn vassert_eq(a: usize, b: usize) requires a == b {}
 // BTreeMap::into_iter() (also `for (k, v) in map`): the entries in ascending key order, each exactly once
 #[verifier::external_body]
 pub fn btree_into_vec2(m: BTreeMap<(u64, u64), F64>) -> (r: Vec<((u64, u64), F64)>)
